@@ -34,9 +34,9 @@ def run(tier, replay=None):
         ("MC_Discovery", "XF_DiscoveryUnsync.cfg", {"workers": 4}, "fail"),
         ("MC_Discovery", "XF_DiscoveryRearm.cfg", {"workers": 2}, "fail"),
     ])
-    summ = common.harness_traces("c11", tier, shards=8, env=env, extra_args=["-x", "layouts=" + layouts], timeout=3600)
+    summ = common.harness_traces("c11", tier, shards=8, env=env, extra_args=["-x", "layouts=%s;port=%d" % (layouts, 28600)], timeout=3600)
     common.validate(v, "Trace_Api", "Trace_Api.cfg", summ, key)
     v.coverage["rule"] = ("Rig S: every sequence of <=3 (quick) / <=4 (thorough) datagrams over {valid configured, valid other, duplicate, wrong length, wrong protocol id, wrong function code, non-decimal BCD date} + 300 random longer ones incl. calendar-impossible dates, "
-                          "over 3 client configurations (broadcast port set / unset, padded names); Rig L: the real Broadcast() against a farm answering with random multisets inside the window and a late reply after it. distinct = sequences")
+                          "over 3 client configurations (broadcast port set / unset, padded names); Rig L: the real Broadcast() against a farm answering with random multisets inside the window and a late reply after it; two overlapping discoveries on one shared fixed bind port, each controller answering 0.5 T after being asked. distinct = sequences")
     v.coverage["checker_cmd"] = "tlc MC_Discovery; tlc Trace_Api (DiscoveryOK)"
     return v.finish()
